@@ -10,6 +10,7 @@ func init() {
 	register("C03", checkC03)
 	register("C04", checkC04)
 	register("C07", checkC07)
+	needsHooks["C03"] = true // the conformance of the copy-on-write model reads trees through fox.VerifDump*
 	needsHooks["C07"] = true // the structural conformance of the radix layer reads the tree through fox.VerifDump
 }
 
@@ -181,8 +182,18 @@ func checkC07(r *Run) {
 
 // C03 - a published routing state never changes.
 func checkC03(r *Run) {
-	runThemes(r, 3, themeTxnSibling, themeTxnNested, themeTxnFanout)
-	runRouterD2(r, 3)
+	if only("themes") {
+		runThemes(r, 3, themeTxnSibling, themeTxnNested, themeTxnFanout)
+	}
+	if only("routerd2") {
+		runRouterD2(r, 3)
+	}
+	if only("cow") {
+		runCow(r)
+		if !r.quick() {
+			cowNegativeRuns(r)
+		}
+	}
 }
 
 // C04 - transactions are atomic and isolated.
